@@ -406,7 +406,8 @@ class LoopSpec:
                 s1.oblige(f"inv-init:{label}", f, "inv-init")
             h = s1.copy()
             mods = self.modifies(entry.peek(), ctx) if callable(self.modifies) else self.modifies
-            alloc0 = havoc_with_frame(h, mods)
+            base = ctx["fn_entry"].alloc_arr() if (self.frame_since_entry and ctx.get("fn_entry") is not None) else None
+            alloc0 = havoc_with_frame(h, mods, alloc_base=base)
             tnames = [nn.id for nn in ast.walk(s.target) if isinstance(nn, ast.Name)]
             self._havoc_locals(ex, s.body, h, ())
             i = z3.Const(fresh_name("i_" + self.name), z3.IntSort())
@@ -424,7 +425,7 @@ class LoopSpec:
             ex.bind_target(s.target, elem, hb.env)
             if self.on_iter:
                 self.on_iter(ex, hb, hctx)
-            body_heap0 = dict(hb.heap); body_alloc0 = hb.alloc_arr()
+            body_heap0 = dict(hb.heap); body_alloc0 = base if base is not None else hb.alloc_arr()
             nctx = dict(ctx); nctx["i"] = i + 1
             for s2, kind, val in ex.run(s.body, hb, d):
                 if kind in ("fall", "continue"):
